@@ -11,6 +11,8 @@ claimed = {
          "assumed: file-system and stdlib model (os.Open, io.ReadFull, hex.Decode, strconv.ParseInt, sha256) as listed in trusted_base; NOT decided: crash points inside copyFile/putIndexEntry, concurrent processes and Trim, end-to-end equality of linter results", "DESIGN.md §7 C05"),
  "C09": ("proof that the binding machinery of the pattern matcher keeps alternatives atomic: Matcher.set/push/pop/merge against a set view of the frame stack; Or.Match, Not.Match, Binding.Match and Matcher.Match proved against the generic matcher contract G plus the property's clauses (failed Or alternative and Not operand leave no bindings; recall compares against the stored value); Parser.node/object/array/bindingIndex: both spellings of a binding carry the index of their name",
          "assumed: contract G for the reflective core `match` (trusted, listed) and the reflective populateNode; NOT decided: structural equality semantics of the reflective comparison itself", "DESIGN.md §7 C09"),
+ "C10": ("proof, at mechanism level, that ignore directives suppress exactly what they name: lineIgnore.match / fileIgnore.match hit exactly the problems in the same file (and line) whose category one of the names glob-matches; parseDirectives turns each well-formed ignore/file-ignore directive into exactly one ignore with the file, line, names and position of the directive, each directive without a reason into one compile error and no ignore, and ignores unknown commands; serializeDirective locates directives with the same position mapping as problems; couldHaveMatched reports an unmatched line directive unless it only names disabled checks or U1000; parseDirective splits command and arguments",
+         "assumed: filepath.Match (uninterpreted), strings.Split/ToLower, report.DisplayPosition; NOT decided: the loop of filterIgnored that applies the ignores to the problems, attachment of comments to nodes (ast.CommentMap in lint.ParseDirectives), the U1000-specific handling inside unused, the end-to-end relation through runner and cache", "DESIGN.md §7 C10"),
  "C11": ("proof of the list-merging and check-selection functions against the documented semantics: config.mergeLists (inherit splicing), Config.Merge, mergeConfigs (left fold, outermost first), normalizeList (adjacent duplicates only), parseConfigs (reversal, default first), lintcmd.filterAnalyzerNames (all / category glob / prefix glob / literal / negation, last match wins)",
          "assumed: strings.HasPrefix/HasSuffix/IndexFunc, TOML decoding and the directory walk (havoc); NOT decided: exit status and formatter equivalence (printDiagnostics), application of the selection in the runner", "DESIGN.md §7 C11"),
  "C12": ("proof that mergeRuns returns exactly the problems the property names: every result was reported by some run and satisfies the any/all condition (all: every run that checked the file reported the same descriptor), and every reported problem satisfying it occurs in the result",
